@@ -98,6 +98,8 @@ class Ctx:
         self.solver = z3.Solver()
         self.solver.set("timeout", timeout_ms)  # wall-clock backstop only
         self.solver.set("rlimit", rlimit)  # deterministic effort cap per query (independent of machine load)
+        self._timeout_ms, self._rlimit = timeout_ms, rlimit
+        self._fresh_model = None
         self.decisions = []
         self.pending = []
         self.stats = stats if stats is not None else Stats()
@@ -113,6 +115,7 @@ class Ctx:
     # ---- solver access -------------------------------------------------------------
     def _check(self, *assumptions):
         t0 = time.perf_counter()
+        self._fresh_model = None
         r = self.solver.check(*assumptions)
         self.stats.solver_s += time.perf_counter() - t0
         self.stats.queries += 1
@@ -121,15 +124,39 @@ class Ctx:
         elif r == z3.unsat:
             self.stats.q_unsat += 1
         else:
-            self.stats.unknown += 1
-            raise Unsupported("solver returned unknown: " + self.solver.reason_unknown())
+            # second opinion from a fresh, non-incremental solver on the same assertions: the incremental core
+            # occasionally gives up (rlimit) on queries the default core decides at once
+            reason = self.solver.reason_unknown()
+            s2 = z3.Solver()
+            s2.set("timeout", self._timeout_ms)
+            s2.set("rlimit", self._rlimit)
+            s2.add(*self.solver.assertions())
+            s2.add(*assumptions)
+            t0 = time.perf_counter()
+            r = s2.check()
+            self.stats.solver_s += time.perf_counter() - t0
+            self.stats.queries += 1
+            self.stats.fresh_retries = getattr(self.stats, "fresh_retries", 0) + 1
+            if r == z3.sat:
+                self.stats.q_sat += 1
+                self._fresh_model = s2.model()
+            elif r == z3.unsat:
+                self.stats.q_unsat += 1
+            else:
+                self.stats.unknown += 1
+                raise Unsupported("solver returned unknown: " + reason)
         return r == z3.sat
+
+    def get_checked_model(self):
+        """model of the last satisfiable _check (from whichever solver decided it)"""
+        m = self._fresh_model
+        return m if m is not None else self.solver.model()
 
     def feasible(self, cond=None):
         """Is pc /\\ cond satisfiable?  Keeps the model when it is."""
         ok = self._check(cond) if cond is not None else self._check()
         if ok:
-            self._last_model = self.solver.model()
+            self._last_model = self.get_checked_model()
         return ok
 
     def _eval_under_model(self, cond):
@@ -152,7 +179,7 @@ class Ctx:
 
     def assume(self, cond):
         """Harness assumption (part of the stated bounds)."""
-        if isinstance(cond, bool):
+        if type(cond) is bool:
             if not cond:
                 raise PathAbort("assumption false")
             return
@@ -168,7 +195,7 @@ class Ctx:
             return False
         if self.pos < len(self.prefix):
             take = self.prefix[self.pos]
-            if not isinstance(take, bool):
+            if type(take) is not bool:
                 raise Unsupported("non-deterministic replay (decision kind mismatch)")
         else:
             known = self._eval_under_model(cond)
@@ -288,7 +315,7 @@ def ctx() -> Ctx:
 
 def as_term(x):
     """bool | SymBool | z3 Bool -> z3 Bool"""
-    if isinstance(x, bool):
+    if type(x) is bool:
         return z3.BoolVal(x)
     e = getattr(x, "e", None)
     if e is not None:
@@ -336,7 +363,7 @@ def explore(harness, *, max_paths=1000, deadline=None, hints=(), range_bound=2, 
                     cl[1] += 1
                     c.solver.add(t)  # proven under the path condition: a sound lemma for the next clauses
                     continue
-                model = c.solver.model()
+                model = c.get_checked_model()
                 c.notes["neg_clause"] = z3.Not(t)
                 extra = getattr(harness, "extra_models", 0)
                 if len([x for x in stats.cex if x["clause"] == clause]) < keep_cex + extra:
